@@ -60,7 +60,7 @@ let resolve (hist : (int * int) list) (s : string) : int =
     let j = int_of_string (String.sub s 1 (String.length s - 1)) in
     match List.nth_opt hist j with
     | Some (m, k) -> if s.[0] = 'm' then m else k
-    | None -> if s.[0] = 'm' then 70000 + j else 900000 + j   (* no such request: a value nothing uses *)
+    | None -> if s.[0] = 'm' then 60000 + j else 900000 + j   (* no such request: a value nothing uses *)
   end else int_of_string s
 
 let parse_in hist (s : string) : ex_cin =
@@ -123,8 +123,15 @@ let parse_step toks : ex_cin * ex_out list =
 let exj toks =
   let t = List.map parse_step (split_steps [] [] toks) in
   Printf.sprintf "judge=%d pos=%d" (int_of_z (ex_judge t))
-    (int_of_z (ex_judge_pos ex_mon_init t Z0))
+    (int_of_z (ex_judge_pos true ex_mon_init t Z0))
+
+(* exjl: the judge without clause 2 (double conclusion) *)
+let exjl toks =
+  let t = List.map parse_step (split_steps [] [] toks) in
+  Printf.sprintf "judge=%d pos=%d" (int_of_z (ex_judge_lenient t))
+    (int_of_z (ex_judge_pos false ex_mon_init t Z0))
 
 let () =
   register "exc" exc;
-  register "exj" exj
+  register "exj" exj;
+  register "exjl" exjl
